@@ -18,10 +18,10 @@ import (
 //     is attributed to the outermost loader resolving it).
 
 type refNode struct {
-	kind   string // static | dep | parented | typeset
-	parent int
-	ts     int
-	own    map[string]int
+	kind string // static | dep | parented | typeset
+	par  *refNode
+	tsi  *tsetInfo
+	own  map[string]int
 }
 
 type refWorld struct{ nodes []*refNode }
@@ -31,7 +31,7 @@ var refStatic *refNode
 func newRefWorld() *refWorld {
 	if refStatic == nil {
 		// shared by all histories: the static loader is never written to
-		refStatic = &refNode{kind: "static", parent: -1, own: map[string]int{}}
+		refStatic = &refNode{kind: "static", own: map[string]int{}}
 		for _, e := range staticEntries {
 			refStatic.own[e.key] = e.val
 		}
@@ -71,25 +71,24 @@ func relativeTo(n tname, t *tsetInfo) (tname, bool) {
 	return tname{n.Auth, n.Ns, strings.Join(segs[len(tp):], "::")}, true
 }
 
-func (w *refWorld) resolve(l int, n tname) (int, bool) {
-	nd := w.nodes[l]
+func (w *refWorld) resolve(nd *refNode, n tname) (int, bool) {
 	switch nd.kind {
 	case "static", "dep":
 		v, ok := nd.own[n.mapKey()]
 		return v, ok
 	case "parented":
-		if v, ok := w.resolve(nd.parent, n); ok {
+		if v, ok := w.resolve(nd.par, n); ok {
 			return v, true
 		}
 		v, ok := nd.own[n.mapKey()]
 		return v, ok
 	case "typeset":
-		t := tsets[nd.ts]
+		t := nd.tsi
 		for {
 			if v, ok := tsLookup(t, n); ok {
 				return v, true
 			}
-			if v, ok := w.resolve(nd.parent, n); ok {
+			if v, ok := w.resolve(nd.par, n); ok {
 				return v, true
 			}
 			c, ok := relativeTo(n, t)
@@ -114,8 +113,7 @@ func nameOfKey(k string) tname {
 	panic("key with unknown authority " + k)
 }
 
-func (w *refWorld) discover(l int, p func(string) bool) []string {
-	nd := w.nodes[l]
+func (w *refWorld) discover(nd *refNode, p func(string) bool) []string {
 	res := []string{}
 	switch nd.kind {
 	case "static", "dep":
@@ -125,14 +123,14 @@ func (w *refWorld) discover(l int, p func(string) bool) []string {
 			}
 		}
 	case "parented":
-		res = w.discover(nd.parent, p)
+		res = w.discover(nd.par, p)
 		for k := range nd.own {
-			if _, shadowed := w.resolve(nd.parent, nameOfKey(k)); !shadowed && p(k) {
+			if _, shadowed := w.resolve(nd.par, nameOfKey(k)); !shadowed && p(k) {
 				res = append(res, k)
 			}
 		}
 	case "typeset":
-		t := tsets[nd.ts]
+		t := nd.tsi
 		in := map[string]bool{}
 		for _, ty := range t.types {
 			k := tname{t.auth, "type", ty.name}.mapKey()
@@ -141,24 +139,56 @@ func (w *refWorld) discover(l int, p func(string) bool) []string {
 				res = append(res, k)
 			}
 		}
-		res = append(res, w.discover(nd.parent, func(k string) bool { return !in[k] && p(k) })...)
+		res = append(res, w.discover(nd.par, func(k string) bool { return !in[k] && p(k) })...)
 	}
 	sort.Strings(res)
 	return res
+}
+
+func infoOf(id int) *valInfo {
+	if vi, ok := vtable[id]; ok {
+		return vi
+	}
+	return dynInfo[id]
 }
 
 func valEqual(old, nv int) bool {
 	if old == nv {
 		return true
 	}
-	o, n := vtable[old], vtable[nv]
+	o, n := infoOf(old), infoOf(nv)
 	return o.cls >= 0 && n.cls == o.cls
+}
+
+// define: a definition made through loader l goes to the first loader from l upwards that is not a type-set
+// loader; write-once.
+func (w *refWorld) define(t *refNode, n tname, v int) string {
+	for t.kind == "typeset" {
+		t = t.par
+	}
+	if t == refStatic {
+		panic("generator error: definition into the shared static loader")
+	}
+	own := t.own
+	k := n.mapKey()
+	old, bound := own[k]
+	if !bound {
+		own[k] = v
+		return "RDefined " + gVal(v)
+	}
+	if valEqual(old, v) {
+		return "RDefined " + gVal(old)
+	}
+	if infoOf(old).ty && infoOf(v).ty {
+		return "RErr ERedefineType"
+	}
+	return "RErr ERedefine"
 }
 
 // apply returns the expected output of the operation (same text as world.apply) and updates the spec state.
 func (w *refWorld) apply(o opT) string {
 	if o.Kind == "NewDep" {
-		w.nodes = append(w.nodes, &refNode{kind: "dep", parent: -1, own: map[string]int{}})
+		w.nodes = append(w.nodes, &refNode{kind: "dep", own: map[string]int{}})
 		return fmt.Sprintf("RNew %d", len(w.nodes)-1)
 	}
 	if o.L < 0 || o.L >= len(w.nodes) {
@@ -166,44 +196,24 @@ func (w *refWorld) apply(o opT) string {
 	}
 	switch o.Kind {
 	case "NewParented", "Fork":
-		w.nodes = append(w.nodes, &refNode{kind: "parented", parent: o.L, own: map[string]int{}})
+		w.nodes = append(w.nodes, &refNode{kind: "parented", par: w.nodes[o.L], own: map[string]int{}})
 		return fmt.Sprintf("RNew %d", len(w.nodes)-1)
 	case "NewTypeSet":
-		w.nodes = append(w.nodes, &refNode{kind: "typeset", parent: o.L, ts: o.T, own: map[string]int{}})
+		w.nodes = append(w.nodes, &refNode{kind: "typeset", par: w.nodes[o.L], tsi: tsets[o.T], own: map[string]int{}})
 		return fmt.Sprintf("RNew %d", len(w.nodes)-1)
 	case "Define", "AddType":
-		t := o.L
-		for w.nodes[t].kind == "typeset" {
-			t = w.nodes[t].parent
-		}
-		if t == 0 {
-			panic("generator error: definition into the shared static loader")
-		}
-		own := w.nodes[t].own
-		k := o.N.mapKey()
-		old, bound := own[k]
-		if !bound {
-			own[k] = o.V
-			return "RDefined " + gVal(o.V)
-		}
-		if valEqual(old, o.V) {
-			return "RDefined " + gVal(old)
-		}
-		if vtable[old].ty && vtable[o.V].ty {
-			return "RErr ERedefineType"
-		}
-		return "RErr ERedefine"
+		return w.define(w.nodes[o.L], o.N, o.V)
 	case "Load":
 		if o.N.Auth != 0 {
 			// px.Load answers not-found for a name of a foreign name authority (loader.go:72)
 			return "RFound None"
 		}
-		if v, ok := w.resolve(o.L, o.N); ok {
+		if v, ok := w.resolve(w.nodes[o.L], o.N); ok {
 			return "RFound (Some " + gVal(v) + ")"
 		}
 		return "RFound None"
 	case "LoadEntry":
-		if v, ok := w.resolve(o.L, o.N); ok {
+		if v, ok := w.resolve(w.nodes[o.L], o.N); ok {
 			return "REntry (EVal " + gVal(v) + ")"
 		}
 		return "REntry miss"
@@ -216,10 +226,10 @@ func (w *refWorld) apply(o opT) string {
 		}
 		return "REntry miss"
 	case "Has":
-		_, ok := w.resolve(o.L, o.N)
+		_, ok := w.resolve(w.nodes[o.L], o.N)
 		return "RBool " + lib.GBool(ok)
 	case "Discover":
-		ks := w.discover(o.L, o.P.onKey)
+		ks := w.discover(w.nodes[o.L], o.P.onKey)
 		gs := make([]string, len(ks))
 		for i, k := range ks {
 			gs[i] = gKey(k)
@@ -239,11 +249,11 @@ func project(out string) string {
 }
 
 func clauseOf(o opT, got string) string {
-	if strings.HasPrefix(got, "RFault") {
+	if strings.HasPrefix(got, "RFault") || strings.HasPrefix(got, "XA AFault") {
 		return "no-runtime-fault"
 	}
 	switch o.Kind {
-	case "Define", "AddType":
+	case "Define", "AddType", "AddTypes":
 		return "write-once"
 	case "Discover":
 		return "discover-exact"
